@@ -440,6 +440,7 @@ pub fn execute(case: &SchedCase, lenses: SLenses, stall: &mut bool) -> R<Execute
     let mut order: Vec<u8> = Vec::new();
     let mut flags: BTreeSet<&'static str> = BTreeSet::new();
     let mut held: Vec<u8> = vec![0; nt];
+    let mut holds_read: Vec<bool> = vec![false; nt];
     let mut edges: BTreeSet<(u8, u8, &'static str)> = BTreeSet::new();
     let mut prio: Vec<i32> = match &case.mode {
         Mode::Pct { prio, .. } | Mode::Points { prio, .. } => (0..nt).map(|i| *prio.get(i).unwrap_or(&0) as i32 + 10).collect(),
@@ -484,6 +485,30 @@ pub fn execute(case: &SchedCase, lenses: SLenses, stall: &mut bool) -> R<Execute
             held[w] &= !released;
             if workers[w] == WState::Done {
                 held[w] = 0;
+            }
+            // shared holds: only one worker ran, so a change of the "some reader" bit is its doing
+            let readers_now = mask & HELD_STATE_ANY != 0 && mask & HELD_STATE_EXCL == 0;
+            let readers_before = mask_at_grant & HELD_STATE_ANY != 0 && mask_at_grant & HELD_STATE_EXCL == 0;
+            if readers_now && !readers_before {
+                holds_read[w] = true;
+            }
+            if !readers_now {
+                for h in holds_read.iter_mut() {
+                    *h = false;
+                }
+            }
+            if workers[w] == WState::Done {
+                holds_read[w] = false;
+            }
+            if lenses.deadlock {
+                if let WState::At { name, want } = &workers[w] {
+                    if holds_read[w] && (*want == WANT_STATE_R || *want == WANT_STATE_W) && result.is_ok() {
+                        result = Err(Fail::new(
+                            "deadlock/recursive-state-lock",
+                            format!("thread {w} asks for the index state lock at {name} while it already holds it in shared mode; the lock is not re-entrant: with a writer queued in between both wait forever"),
+                        ));
+                    }
+                }
             }
         }
         // lock-order edges: a parked worker that wants a lock while holding others
